@@ -45,10 +45,10 @@ Qed.
 Lemma frozen_block_spec s h : PInv s -> 0 < h <= tip ->
   get_frozen_block s (b_id (main h)) = if Nat.ltb h (pnumber s) then Some (main h) else None.
 Proof.
-  intros I Hh. unfold get_frozen_block. rewrite (pi_hdr s I h Hh).
+  intros I Hh. unfold get_frozen_block, frozen_at. rewrite (pi_hdr s I h Hh).
   destruct (Nat.ltb_spec 0 h) as [_|?]; [|lia]. cbn [andb].
   destruct (Nat.ltb_spec h (pnumber s)) as [L|L]; [|reflexivity].
-  apply fz_nth; [exact I|]. unfold pnumber in L. lia.
+  rewrite (fz_nth s h I) by (unfold pnumber in L; lia). cbn [same_id]. rewrite N.eqb_refl. reflexivity.
 Qed.
 
 Lemma absent_frozen s h : PInv s -> 0 < h <= tip -> h <= p_synced s -> Nat.ltb h (pnumber s) = true.
@@ -100,14 +100,79 @@ Proof.
   - unfold get_block. rewrite Hhd.
     destruct (Nat.ltb_spec 0 h) as [_|?]; [|lia]. cbn [andb].
     destruct (Nat.ltb_spec h (pnumber s)) as [L|L].
-    + apply fz_nth; [exact I|]. unfold pnumber in L. lia.
-    + rewrite Hunc, Hpr, Hbody, Hex. f_equal. apply blk_eta.
+    + rewrite (fz_nth s h I) by (unfold pnumber in L; lia). rewrite N.eqb_refl. reflexivity.
+    + unfold assemble. rewrite Hunc, Hpr, Hbody, Hex. f_equal. apply blk_eta.
   - unfold get_packed_block. rewrite Hf.
     destruct (Nat.ltb_spec h (pnumber s)) as [L|L]; [reflexivity|].
     rewrite Hhd, Hunc, Hpr, Hex.
     destruct (pi_rows s I h Hh) as [(Hb & _)|(Hs & _)].
     + rewrite Hb. f_equal. apply blk_eta.
     + pose proof (pi_sync s I). unfold pnumber in L. lia.
+Qed.
+
+
+(* ---- side-chain blocks ------------------------------------------------------ *)
+(* a stored block that is not on the main chain (a sibling at any height, frozen or not) *)
+Definition side_stored (s : pstore) (n : nat) (sb : blk) : Prop :=
+  p_hdr s (b_id sb) = Some (n, b_hdr sb) /\ rows_present s sb.
+Definition not_main (id : N) : Prop := forall h, 0 < h <= tip -> id <> b_id (main h).
+
+Lemma side_not_frozen s n sb : PInv s -> not_main (b_id sb) -> p_hdr s (b_id sb) = Some (n, b_hdr sb) ->
+  get_frozen_block s (b_id sb) = None.
+Proof.
+  intros I Hnm Hh. unfold get_frozen_block, frozen_at. rewrite Hh.
+  destruct (Nat.ltb 0 n && Nat.ltb n (pnumber s)); [|reflexivity].
+  destruct (nth_error (p_fz s) (n - 1)) as [b|] eqn:E; [|reflexivity]. cbn [same_id].
+  pose proof (pi_fz s I _ _ E) as ->.
+  assert (Hl : n - 1 < length (p_fz s)) by (apply nth_error_Some; rewrite E; discriminate).
+  pose proof (pi_len s I).
+  destruct (N.eqb_spec (b_id (main (S (n - 1)))) (b_id sb)) as [Eq|]; [|reflexivity].
+  exfalso. apply (Hnm (S (n - 1))); [lia|]. symmetry. exact Eq.
+Qed.
+
+(* every getter answers a stored side-chain block with that block's own parts, wherever the freezer's
+   number stands: the block the freezer holds at the same height is another block *)
+Theorem side_getters_spec s n sb : PInv s -> not_main (b_id sb) -> b_body sb <> [] -> side_stored s n sb ->
+  let id := b_id sb in
+  get_header s id = Some (b_hdr sb) /\
+  get_body s id = b_body sb /\
+  get_cellbase s id = hd_error (b_body sb) /\
+  get_uncles s id = Some (b_uncles sb) /\
+  get_props s id = Some (b_props sb) /\
+  get_ext s id = b_ext sb /\
+  get_block s id = Some sb /\
+  get_packed_block s id = Some sb.
+Proof.
+  intros I Hnm Hcb (Hh & Hb & Hu & Hp & He) id. subst id.
+  pose proof (side_not_frozen s n sb I Hnm Hh) as Hf.
+  assert (Hbody : get_body s (b_id sb) = b_body sb).
+  { unfold get_body. rewrite Hb. destruct (b_body sb); [contradiction|reflexivity]. }
+  assert (Hunc : get_uncles s (b_id sb) = Some (b_uncles sb)) by (unfold get_uncles; rewrite Hu; reflexivity).
+  assert (Hpr : get_props s (b_id sb) = Some (b_props sb)) by (unfold get_props; rewrite Hp; reflexivity).
+  assert (Hex : get_ext s (b_id sb) = b_ext sb).
+  { unfold get_ext. rewrite He, Hf. destruct (b_ext sb); reflexivity. }
+  assert (Hasm : assemble s (b_id sb) (b_hdr sb) = Some sb).
+  { unfold assemble. rewrite Hunc, Hpr, Hbody, Hex. f_equal. apply blk_eta. }
+  repeat match goal with |- _ /\ _ => split end.
+  - unfold get_header. rewrite Hh. reflexivity.
+  - exact Hbody.
+  - unfold get_cellbase. rewrite Hb. destruct (b_body sb); [contradiction|reflexivity].
+  - exact Hunc.
+  - exact Hpr.
+  - exact Hex.
+  - unfold get_block. rewrite Hh.
+    destruct (Nat.ltb 0 n && Nat.ltb n (pnumber s)) eqn:Cond; [|exact Hasm].
+    destruct (nth_error (p_fz s) (n - 1)) as [b|] eqn:E.
+    + pose proof (pi_fz s I _ _ E) as ->.
+      assert (Hl : n - 1 < length (p_fz s)) by (apply nth_error_Some; rewrite E; discriminate).
+      pose proof (pi_len s I).
+      destruct (N.eqb_spec (b_id (main (S (n - 1)))) (b_id sb)) as [Eq|]; [|exact Hasm].
+      exfalso. apply (Hnm (S (n - 1))); [lia|]. symmetry. exact Eq.
+    + (* the freezer has no item at a number below its own: impossible *)
+      exfalso. apply nth_error_None in E.
+      apply andb_true_iff in Cond as [C0 C1]. apply Nat.ltb_lt in C0. apply Nat.ltb_lt in C1.
+      unfold pnumber in C1. lia.
+  - unfold get_packed_block. rewrite Hf, Hh, Hunc, Hpr, Hex, Hb. f_equal. apply blk_eta.
 Qed.
 
 (* ---- preservation --------------------------------------------------------- *)
@@ -293,6 +358,90 @@ Proof.
   intros Hi Hh. apply getters_spec; [|exact Hh]. apply prun_inv. apply pinitial_inv. exact Hi.
 Qed.
 
+
+(* ---- side-chain blocks through the passes ------------------------------------ *)
+(* a stored side-chain block stays stored with all its rows, or is removed as a whole (header too) *)
+Definition side_state (s : pstore) (n : nat) (sb : blk) : Prop :=
+  side_stored s n sb \/ p_hdr s (b_id sb) = None.
+
+Lemma delete_body_side s m id n sb : b_id sb <> id -> side_state s n sb -> side_state (delete_block_body s m id) n sb.
+Proof.
+  intros Hne [(Hh & Hb & Hu & Hp & He)|Hg]; [left|right; exact Hg].
+  split; [exact Hh|]. unfold rows_present. cbn [delete_block_body p_body p_uncles p_props p_ext].
+  rewrite del_body_other, !del_other by exact Hne. auto.
+Qed.
+
+Lemma delete_block_side s m id n sb : side_state s n sb -> side_state (delete_block s m id) n sb.
+Proof.
+  intros H. destruct (N.eq_dec (b_id sb) id) as [E|Hne].
+  - right. cbn [delete_block p_hdr]. subst id. apply del_same.
+  - destruct H as [(Hh & Hb & Hu & Hp & He)|Hg].
+    + left. split.
+      * cbn [delete_block p_hdr delete_block_body]. rewrite del_other by exact Hne. exact Hh.
+      * unfold rows_present. cbn [delete_block delete_block_body p_body p_uncles p_props p_ext].
+        rewrite del_body_other, !del_other by exact Hne. auto.
+    + right. cbn [delete_block p_hdr delete_block_body]. rewrite del_other by exact Hne. exact Hg.
+Qed.
+
+Lemma wipe_main_side n sb l : forall s,
+  (forall r, In r l -> b_id sb <> snd r) -> side_state s n sb ->
+  side_state (fold_left (fun st r => delete_block_body st (fst r) (snd r)) l s) n sb.
+Proof.
+  induction l as [|r l IH]; intros s Hl H; cbn [fold_left]; [exact H|].
+  apply IH; [intros r' Hr'; apply Hl; right; exact Hr'|].
+  apply delete_body_side; [apply Hl; left; reflexivity|exact H].
+Qed.
+
+Lemma wipe_side_side (s0 : pstore) n sb l : forall s,
+  side_state s n sb ->
+  side_state (fold_left (fun st e => if side_ok s0 e then delete_block st (fst e) (snd e) else st) l s) n sb.
+Proof.
+  induction l as [|e l IH]; intros s H; cbn [fold_left]; [exact H|].
+  apply IH. destruct (side_ok s0 e); [apply delete_block_side; exact H|exact H].
+Qed.
+
+Lemma pstep_side s o n sb : PInv s -> not_main (b_id sb) -> side_state s n sb -> side_state (pstep_run s o) n sb.
+Proof.
+  intros I Hnm H. destruct o as [| | | |side|k]; cbn [pstep_run].
+  - exact H.
+  - destruct (p_ok s); [exact H|]. destruct (p_index s (pnumber s)); [|exact H].
+    destruct (get_unfrozen_block s n0); exact H.
+  - exact H.
+  - destruct (p_ok s); [|exact H]. apply wipe_main_side; [|exact H].
+    intros [m id] Hin. cbn [snd]. destruct (pi_ret s I m id Hin) as [Hm ->].
+    pose proof (pi_len s I). apply Hnm. lia.
+  - destruct (p_ok s); [|exact H]. apply wipe_side_side. exact H.
+  - exact H.
+Qed.
+
+Lemma prun_side ops n sb : forall s, PInv s -> not_main (b_id sb) -> side_state s n sb -> side_state (prun s ops) n sb.
+Proof.
+  unfold prun. induction ops as [|o ops IH]; intros s I Hnm H; cbn [fold_left]; [exact H|].
+  apply IH; [apply pstep_inv; exact I|exact Hnm|apply pstep_side; assumption].
+Qed.
+
+(* C10 for side-chain blocks: at every point of any sequence of passes and crashes a side-chain block
+   that was stored is either removed as a whole or every getter still answers it with its own parts —
+   never with the main-chain block the freezer holds at the same height *)
+Theorem side_read_invariant s ops n sb : pinitial s -> not_main (b_id sb) -> b_body sb <> [] -> side_stored s n sb ->
+  let s' := prun s ops in let id := b_id sb in
+  get_header s' id = None \/
+  (get_header s' id = Some (b_hdr sb) /\
+   get_body s' id = b_body sb /\
+   get_cellbase s' id = hd_error (b_body sb) /\
+   get_uncles s' id = Some (b_uncles sb) /\
+   get_props s' id = Some (b_props sb) /\
+   get_ext s' id = b_ext sb /\
+   get_block s' id = Some sb /\
+   get_packed_block s' id = Some sb).
+Proof.
+  intros Hi Hnm Hcb Hst s' id. subst s' id.
+  pose proof (prun_inv ops s (pinitial_inv s Hi)) as I.
+  destruct (prun_side ops n sb s (pinitial_inv s Hi) Hnm (or_introl Hst)) as [Hs|Hg].
+  - right. exact (side_getters_spec (prun s ops) n sb I Hnm Hcb Hs).
+  - left. unfold get_header. rewrite Hg. reflexivity.
+Qed.
+
 (* ---- what is removed ------------------------------------------------------- *)
 Lemma fold_body_uncles l : forall s id,
   p_uncles (fold_left (fun st r => delete_block_body st (fst r) (snd r)) l s) id = None ->
@@ -409,4 +558,30 @@ Proof.
   - intros h Hh. do 6 (destruct h as [|h]; [try lia|]). reflexivity.
   - intros n id h Hnh Hh ->. destruct Hh as [H1 H2].
     do 6 (destruct h as [|h]; [try lia; cbn in Hnh; apply Nat.eqb_eq in Hnh; symmetry; exact Hnh|]). lia.
+Qed.
+
+(* a crash between the first and the second wipe-out batch leaves the sibling of block 2 stored for good
+   (the next pass looks only under the numbers it froze itself, ex_parts above); it still reads as itself *)
+Lemma ex_side_after_crash :
+  let s := prun ex_s0 ex_ops in
+  p_hdr s 999 = Some (2, 888%N) /\ length (p_fz s) = 4 /\
+  get_block s 999 = Some ex_side /\ get_packed_block s 999 = Some ex_side /\ get_ext s 999 = None /\
+  get_uncles s 999 = Some 666%N.
+Proof. vm_compute. repeat split. Qed.
+
+(* with the freezer consulted by number alone (get_block / get_frozen_block before the repair) the
+   same reads answer with main-chain block 2 *)
+Lemma bynum_refuted :
+  let s := prun ex_s0 ex_ops in
+  get_block_bynum s 999 = Some (ex_main 2) /\ get_block_bynum s 999 <> Some ex_side /\
+  get_frozen_block_bynum s 999 = Some (ex_main 2) /\
+  (* the extension fallback of a side-chain block without extension picks up block 2's *)
+  orelse (p_ext s 999) (match get_frozen_block_bynum s 999 with Some b => b_ext b | None => None end) = Some 702%N.
+Proof. vm_compute. repeat split. discriminate. Qed.
+
+Lemma ex_side_stored : side_stored ex_s0 2 ex_side /\ not_main ex_main 5 (b_id ex_side) /\ b_body ex_side <> [].
+Proof.
+  repeat split; try reflexivity.
+  - intros h [H1 H2]. do 6 (destruct h as [|h]; [try lia; cbn; discriminate|]). lia.
+  - discriminate.
 Qed.
